@@ -481,6 +481,9 @@ func writeEvidence(prop, tier string, seed uint64, spec propSpec, t *workerRepor
 	}
 	b, _ := json.MarshalIndent(ev, "", " ")
 	dir := filepath.Join(verifDir, "evidence")
+	if d := os.Getenv("VERIF_EVIDENCE_DIR"); d != "" {
+		dir = d // runs against a deliberately changed scratch tree (scripts/mutrun.sh) must not overwrite the evidence of /repo
+	}
 	_ = os.MkdirAll(dir, 0o755)
 	if err := os.WriteFile(filepath.Join(dir, prop+".json"), b, 0o644); err != nil {
 		fatal2("%v", err)
